@@ -130,7 +130,7 @@ func OpAlias(o *Out, e *TypeEntry, v reflect.Value, path []string, measure bool)
 	}()
 	allocs := "-"
 	if measure && alias != "panic" {
-		arg2, _ := MakeArg(e.Type, DeepCopy(v), FormPtr)
+		arg2, root2 := MakeArg(e.Type, DeepCopy(v), FormPtr)
 		arg3, _ := MakeArg(e.Type, DeepCopy(v), FormPtr)
 		var buf any
 		var res bool
@@ -161,9 +161,21 @@ func OpAlias(o *Out, e *TypeEntry, v reflect.Value, path []string, measure bool)
 			if kindNameOf(el) != "" {
 				pre := inspector.NewByteBuffer(4096)
 				var scalar any = int32(7)
+				// for text elements: longer than what the element can hold — storing it must come out of the pre-sized
+				// buffer, not out of a fresh array (a number that long would only exercise strconv's error value)
 				var text any = "12"
+				if k := kindNameOf(el); k == "string" || k == "[]byte" {
+					text = "1234567890123456789012345678901234567890"
+				}
+				// a bytes element is emptied before every call (no allocation): it must not be able to keep the text in
+				// capacity left over from the previous call
+				clear := func() {}
+				if live, ok := NavReflect(root2(), path); ok && live.CanSet() && kindNameOf(live) == "[]byte" {
+					zero := reflect.Zero(live.Type())
+					clear = func() { live.Set(zero) }
+				}
 				allocs += " setscalar=" + a(func() { pre.Reset(); _ = e.Ins.SetWithBuffer(arg2, scalar, pre, path...) }) +
-					" settext=" + a(func() { pre.Reset(); _ = e.Ins.SetWithBuffer(arg2, text, pre, path...) })
+					" settext=" + a(func() { clear(); pre.Reset(); _ = e.Ins.SetWithBuffer(arg2, text, pre, path...) })
 			}
 		}
 	}
